@@ -25,7 +25,7 @@ LEVEL = 'exploration'
 REAL = ['pjrpc/client/retry.py (Backoff families, RetryStrategy, retry, retry_async)',
         'pjrpc/client/client.py (retried/traced wrappers, _send, send, call, notify, Batch/AsyncBatch)',
         'pjrpc/common/v20.py', 'pjrpc/server/dispatcher.py (serving the successful / failing attempts)']
-STUB = ['time.sleep / asyncio.sleep as seen by pjrpc.client.retry (virtual clock)',
+STUB = ['time.sleep / asyncio.sleep as seen by pjrpc.client.retry and every clock of the time module (virtual clock)',
         'transport (SimNet at the _request seam: scripted per-attempt outcomes and latencies)',
         'event loop (SimLoop, virtual time)']
 ASSUMPTIONS = ['all durations are dyadic rationals of small magnitude, so virtual-time arithmetic is exact',
